@@ -467,11 +467,20 @@ def run(ctx):
               'the log level is configured in exactly one place (pyikev2.py, logging.basicConfig)', key=('Z4', 'single-config'),
               detail={'found': [(a, src(b)[:60]) for a, b in cfg]})
     if cfg:
-        lv = {k.arg: k.value for k in cfg[0][1].keywords}.get('level')
-        ok = isinstance(lv, ast.IfExp) and ((src(lv.test) == 'args.verbose' and src(lv.body) == 'logging.DEBUG' and src(lv.orelse) == 'logging.INFO')
-                                            or (src(lv.test) == 'not args.verbose' and src(lv.body) == 'logging.INFO' and src(lv.orelse) == 'logging.DEBUG'))
-        ctx.check(ok, 'Z4', 'the root level is DEBUG exactly when --verbose is given, else INFO', key=('Z4', 'level'),
-                  detail={'found': src(lv) if lv is not None else None})
+        from ..sval import module_body, mk_cond
+        from .. import tq
+        MB = module_body(prog, res, py)
+        bc = [c for c in MB.calls if c.node is cfg[0][1]]
+        lv = bc[0].args.get('level') if bc else None
+        want = None
+        if lv is not None and lv[0] == 'cond':
+            verbose = lv[1]
+            want = mk_cond(verbose, MB.expr('logging.DEBUG'), MB.expr('logging.INFO'))
+            ok = lv == want and verbose[0] == 'attr' and verbose[2] == 'verbose' and tq.is_call(verbose[1]) and verbose[1][1] == 'method.parse_args'
+        else:
+            ok = False
+        ctx.check(ok and not bc[0].pc, 'Z4', 'the root level is DEBUG exactly when --verbose is given, else INFO (configured unconditionally)',
+                  key=('Z4', 'level'), detail={'found': tq.text(lv) if lv is not None else None})
     adds = [x for x in ast.walk(py.tree) if isinstance(x, ast.Call) and callee_name(x) == 'add_argument' and any(
         isinstance(a, ast.Constant) and a.value == '--verbose' for a in x.args)]
     ok = len(adds) == 1 and any(k.arg == 'action' and isinstance(k.value, ast.Constant) and k.value.value == 'store_true' for k in adds[0].keywords)
